@@ -300,7 +300,7 @@ func (e *Engine) HookObserver(point, arg string) {
 	}
 	e.H.mu.Unlock()
 	if q != nil {
-		e.Conn.Unsubscribe(q.Subject)
+		e.Conn.Drain(q.Subject)
 		e.H.Rec("qe.drain", q.Group, q.ID, "")
 	}
 }
